@@ -486,7 +486,6 @@ def eval_rrsigdata(ctx, c, rep):
     signer = mkname(c["signer"])
     rrname = mkname(c["rrname"])
     rds = [build_rd(cls, sp) for sp in c["rds"]]
-    rrsig = dns.rdata.from_wire(1, RRSIG, b"", 0, 0) if False else None
     from dns.rdtypes.ANY.RRSIG import RRSIG as RRSIGc
     rrsig = RRSIGc(1, RRSIG, s[0], s[1], s[2], s[3], s[4], s[5], s[6], signer, b"\x01\x02")
     rdataset = dns.rdataset.Rdataset(cls, ty, ttl=c["ttl"])
@@ -724,6 +723,12 @@ def eval_signzone(ctx, c, rep):
         ctx.fail("C15/sign_zone/nsec-rdata/not-canonical-encoding", "NSEC RDATA is not next-name + minimal ascending windows", rep)
         return
     chain, must_sign = r_nsec_chain(tuple(origin.labels), before)
+    # the Lean-side specification (`secure`) and the hypotheses of C15.nsec_chain_partial on this zone, against the
+    # Python reference: the expected line is built from the reference only
+    stored = {zone_fqdn(z, n): n for n in z.nodes}
+    ref_order = sorted(chain, key=lambda n: r_key(list(n)))
+    ctx.corr(f"c15.chainspec {enc_labels(origin.labels)} " + " ".join(order),
+             "ok true true true true " + (";".join(enc_labels(stored[n].labels) for n in ref_order) or "-"), c)
     g = got["recorder"]
     low = lambda n: tuple(r_lower(l) for l in n)
     gk = {low(k): (low(v_[0]), v_[1]) for k, v_ in g.items()}
@@ -876,10 +881,7 @@ def all_specs():
     for cls, ty in X.implemented_pairs():
         inst = 1 if cls == 255 else cls
         for kind, payload in X.specimen_texts(inst, ty):
-            if kind == "text":
-                out.append((cls, ty, payload))
-            else:
-                out.append((cls, ty, payload))
+            out.append((cls, ty, payload))  # text template, or bytes for a wire specimen
     return out
 
 
@@ -891,8 +893,6 @@ def gen_rd_spec(rng, ty, template, relative_ok=False):
     for _ in range(k):
         absolute = not (relative_ok and rng.chance(1, 3))
         n = gen_name(rng, absolute=absolute, maxlabels=3, budget=60)
-        if ty in (64, 65, 45, 260) and n == [b""] and False:
-            pass
         names.append(hexl(n))
     return {"ty": ty, "text": template, "names": names}
 
@@ -1039,7 +1039,7 @@ ZTYPES = {1: ("A", None), 28: ("AAAA", None), 15: ("MX", None), 16: ("TXT", None
           257: ("CAA", None), 12: ("PTR", None), 39: ("DNAME", None), 17: ("RP", None)}
 
 
-def z_rds(rng, ty, ttl, relname=False, origin=None):
+def z_rds(rng, ty, ttl):
     tname, wire = ZTYPES[ty]
     if tname is None:
         return {"ty": ty, "ttl": ttl, "rd": [{"ty": ty, "wire": wire}]}
@@ -1119,7 +1119,7 @@ def gen_zonemd(rng):
     z["alg"] = rng.choice([1, 1, 1, 2, 2, 2, 3, 0])
     z["scheme"] = rng.choice([1] * 9 + [0, 2])
     origin = lab(z["origin"])
-    apexname = z["nodes"][0]["name"] if False else hexl([] if z["rel"] else origin)
+    apexname = hexl([] if z["rel"] else origin)
     zm = lambda ttl, serial: {"ty": 63, "ttl": ttl, "rd": [{"ty": 63, "text": f"{serial} 1 1 " + X.H48, "names": []}]}
     sg = lambda cov, ttl: {"ty": 46, "covers": cov, "ttl": ttl, "rd": [{"ty": 46, "text": f"TYPE{cov} 8 2 300 20300101000000 20200101000000 1 {{n}} AAAA", "names": [hexl(origin)]}]}
     for nd in z["nodes"]:
